@@ -1,6 +1,7 @@
 package rules
 
 import (
+	"os"
 	"fmt"
 	"go/token"
 	"go/types"
@@ -719,6 +720,9 @@ func (e *panicEngine) boundPositive(pv *core.Prover, c ssa.CallInstruction, boun
 		f := core.StaticCallee(bc)
 		for _, g := range core.Guards(b) {
 			rel, ok := core.AsRel(g)
+			if os.Getenv("SPG_DEBUG_BP") != "" {
+				fmt.Fprintf(os.Stderr, "BP guard %v pos=%v rel=%v ok=%v\n", g.Cond, g.Pos, rel, ok)
+			}
 			if !ok {
 				continue
 			}
